@@ -285,8 +285,14 @@ structure St where
   cast : Bool := false                 -- `_cast_integers`
   stack : List Frame := [Frame.none]   -- `_nodes_stack`, head = top
   context : List Node := []            -- `self.context` (as far as read: the class declarations)
-  program : Option String := none      -- `self.program`
-  package : Option String := none      -- `self.package`
+deriving Inhabited
+
+/-- the translator object: the attributes the visit methods work on, plus `self.program`
+    (written by `visit_program` only) and `self.package` (assigned by `__init__` only) -/
+structure Obj where
+  st : St := {}
+  program : Option String := none
+  package : Option String := none
 deriving Inhabited
 
 def push (f : Frame) (st : St) : St := { st with stack := f :: st.stack }
@@ -316,7 +322,9 @@ def visit (st : St) : Node → St × Doc
     let st := push .block st
     let isUnit := st.isUnit
     let isLambda := st.isLambda
-    let (st1, rs) := visitL { st with isUnit := false, isLambda := false } body
+    let r := visitL { st with isUnit := false, isLambda := false } body
+    let st1 := r.1
+    let rs := r.2
     let ret := if isFunc && !isUnit && !isLambda then "return " else ""
     let init := rs.dropLast
     let res := o (if !isLambda then "{" else "") ++ o "\n" ++ joinD "\n" init
@@ -329,16 +337,20 @@ def visit (st : St) : Node → St × Doc
   | .superInst t args =>
     let st := push .other st
     let st0 := { st with ident := 0 }
-    let (st1, rs) := visitOL st0 args
-    (match args with
-     | none => (pop st1, [(Tag.superT, typeName t)])
-     | some _ => (pop st1, [(Tag.superT, typeName t)] ++ o "(" ++ joinD ", " rs ++ o ")"))
+    let r := visitOL st0 args
+    (pop r.1, match args with
+     | none => [(Tag.superT, typeName t)]
+     | some _ => [(Tag.superT, typeName t)] ++ o "(" ++ joinD ", " r.2 ++ o ")")
   | .classDecl name ctype isFinal fields supers funcs tparams =>
     let st := push .other st
     let old := st.ident
-    let (st1, fr) := visitL { st with ident := st.ident + 2 } fields
-    let (st2, sr) := visitL st1 supers
-    let (st3, fnr) := visitL st2 funcs
+    let r1 := visitL { st with ident := st.ident + 2 } fields
+    let r2 := visitL r1.1 supers
+    let r3 := visitL r2.1 funcs
+    let st3 := r3.1
+    let fr := r1.2
+    let sr := r2.2
+    let fnr := r3.2
     let tpr := tparams.map tparamDoc
     let isSam := isSamDecl st3.context (.classDecl name ctype isFinal fields supers funcs tparams)
     let pfx := if isSam then "interface" else classPrefix ctype
@@ -357,18 +369,18 @@ def visit (st : St) : Node → St × Doc
     let st0 := { st with ident := 0 }
     let prev := st0.cast
     let st0 := if varType.isNone then { st0 with cast := true } else st0
-    let (st1, r) := visit st0 expr
+    let r := visit st0 expr
     let res := pre ++ [(Tag.varD name, (if isFinal then "val " else "var ") ++ name)] ++
-      (match varType with | some t => [(Tag.varAnnot name, ": " ++ typeName t)] | none => []) ++ o " = " ++ r
-    (pop { st1 with ident := old, cast := prev }, res)
+      (match varType with | some t => [(Tag.varAnnot name, ": " ++ typeName t)] | none => []) ++ o " = " ++ r.2
+    (pop { r.1 with ident := old, cast := prev }, res)
   | .callArg expr name =>
     let st := push .other st
     let old := st.ident
-    let (st1, r) := visit { st with ident := 0 } expr
-    let st2 := { st1 with ident := old }
+    let r := visit { st with ident := 0 } expr
+    let st2 := { r.1 with ident := old }
     (pop st2, match name with
-      | some nm => if nm != "" then [(Tag.name, nm)] ++ o " = " ++ r else r
-      | none => r)
+      | some nm => if nm != "" then [(Tag.name, nm)] ++ o " = " ++ r.2 else r.2
+      | none => r.2)
   | .fieldDecl name t isFinal canOverride override =>
     let st := push .other st
     (pop st, [(Tag.fieldD name, (if canOverride then "open " else "") ++ (if override then "override " else "") ++
@@ -376,14 +388,14 @@ def visit (st : St) : Node → St × Doc
   | .paramDecl name t vararg dflt =>
     let st := push .other st
     let old := st.ident
-    let (st1, rs) := visitO { st with ident := 0 } dflt
-    let st2 := { st1 with ident := old }
+    let r := visitO { st with ident := 0 } dflt
+    let st2 := { r.1 with ident := old }
     let pt := match vararg, t with
       | true, .param _ _ (a :: _) _ => typeName a
       | true, .param _ _ [] _ => "<<IndexError>>"
       | _, _ => typeName t
     let res := [(Tag.paramD name, (if vararg then "vararg " else "") ++ name ++ ": " ++ pt)]
-    let res := match rs with | r :: _ => res ++ o " = " ++ r | [] => res
+    let res := match r.2 with | d :: _ => res ++ o " = " ++ d | [] => res
     (pop st2, res)
   | .funcDecl name params retType inferred body isFinal override tparams _ =>
     let st := push (.fn retType) st
@@ -394,10 +406,11 @@ def visit (st : St) : Node → St × Doc
     let prevC := st0.cast
     let isExpr := !isBlock body
     let st0 := if isExpr then { st0 with cast := true } else st0
-    let (st1, pr) := visitL st0 params
+    let r1 := visitL st0 params
+    let pr := r1.2
     let tpr := tparams.map tparamDoc
-    let (st2, bodyRes) := visitO st1 body
-    let bodyDoc := match bodyRes with | b :: _ => b | [] => []
+    let r2 := visitO r1.1 body
+    let bodyDoc := match r2.2 with | b :: _ => b | [] => []
     let pre := (if isFinal then "" else "open ") ++ (if override then "override " else "") ++
       (if body.isSome then "" else "abstract ")
     let res := ind old ++ [(Tag.funcD name, pre ++ "fun ")] ++
@@ -407,7 +420,7 @@ def visit (st : St) : Node → St × Doc
     let res := if flatten bodyDoc != "" then
         res ++ o " " ++ o (if isExpr && !isUnitT inferred then "=" else "") ++ o "\n" ++ bodyDoc
       else res ++ bodyDoc
-    (pop { st2 with ident := old, isUnit := prevUnit, cast := prevC }, res)
+    (pop { r2.1 with ident := old, isUnit := prevUnit, cast := prevC }, res)
   | .lambda _ params retType body _ =>
     let st := push (.fn retType) st
     let parent := st.stack.getD 1 Frame.none
@@ -426,9 +439,11 @@ def visit (st : St) : Node → St × Doc
       | _ => ""
     let prevC := st0.cast
     let st0 := if isExpr then { st0 with cast := true } else st0
-    let (st1, pr) := visitL st0 params
-    let (st2, bodyRes) := visit st1 body
-    let st3 := { st2 with ident := old }
+    let r1 := visitL st0 params
+    let pr := r1.2
+    let r2 := visit r1.1 body
+    let bodyRes := r2.2
+    let st3 := { r2.1 with ident := old }
     let res := if isExpr || useLambda then
         o (if insideBlockUnit then "var y = " else "") ++
           [(if useLambda then Tag.ty else Tag.other, if useLambda then samName else "")] ++
@@ -440,9 +455,9 @@ def visit (st : St) : Node → St × Doc
   | .funcRef func receiver _ =>
     let st := push .other st
     let old := st.ident
-    let (st1, rs) := visitO { st with ident := 0 } receiver
-    let st2 := { st1 with ident := old }
-    (pop st2, ind st2.ident ++ (match rs with | r :: _ => r | [] => []) ++ o "::" ++ [(Tag.name, func)])
+    let r := visitO { st with ident := 0 } receiver
+    let st2 := { r.1 with ident := old }
+    (pop st2, ind st2.ident ++ (match r.2 with | d :: _ => d | [] => []) ++ o "::" ++ [(Tag.name, func)])
   | .bottom t =>
     let st := push .other st
     (pop st, ind st.ident ++ (match t with
@@ -450,12 +465,11 @@ def visit (st : St) : Node → St × Doc
       | none => o "TODO()"))
   | .intC lit t =>
     let st := push .other st
-    if !st.cast then (pop st, ind st.ident ++ [(Tag.lit, lit)])
-    else
-      let suffix := intSuffix t
-      if suffix != "" && lit.toList.head? == some '-' then
-        (pop st, ind st.ident ++ o "(" ++ [(Tag.lit, lit)] ++ o ")" ++ o suffix)
-      else (pop st, ind st.ident ++ [(Tag.lit, lit)] ++ o suffix)
+    (pop st,
+      if !st.cast then ind st.ident ++ [(Tag.lit, lit)]
+      else if intSuffix t != "" && lit.toList.head? == some '-' then
+        ind st.ident ++ o "(" ++ [(Tag.lit, lit)] ++ o ")" ++ o (intSuffix t)
+      else ind st.ident ++ [(Tag.lit, lit)] ++ o (intSuffix t))
   | .realC lit t =>
     let st := push .other st
     let suffix := match t with | some x => if isCls x clsFloat then "f" else "" | none => ""
@@ -470,14 +484,14 @@ def visit (st : St) : Node → St × Doc
       | .param _ _ (a :: _) _ => typeName a
       | _ => "<<IndexError>>"
     if len == 0 then
-      if !isSpec then (pop st, ind st.ident ++ o "emptyArray<" ++ [(Tag.ty, targ)] ++ o ">()")
-      else (pop st, ind st.ident ++ [(Tag.ty, targ)] ++ o "Array(0)")
+      (pop st, if !isSpec then ind st.ident ++ o "emptyArray<" ++ [(Tag.ty, targ)] ++ o ">()"
+               else ind st.ident ++ [(Tag.ty, targ)] ++ o "Array(0)")
     else
       let old := st.ident
-      let (st1, rs) := visitL { st with ident := 0 } exprs
-      let st2 := { st1 with ident := old }
-      if !isSpec then (pop st2, ind st2.ident ++ o "arrayOf<" ++ [(Tag.ty, targ)] ++ o ">(" ++ joinD ", " rs ++ o ")")
-      else (pop st2, ind st2.ident ++ [(Tag.ty, asciiLower targ)] ++ o "ArrayOf(" ++ joinD ", " rs ++ o ")")
+      let r := visitL { st with ident := 0 } exprs
+      let st2 := { r.1 with ident := old }
+      (pop st2, if !isSpec then ind st2.ident ++ o "arrayOf<" ++ [(Tag.ty, targ)] ++ o ">(" ++ joinD ", " r.2 ++ o ")"
+                else ind st2.ident ++ [(Tag.ty, asciiLower targ)] ++ o "ArrayOf(" ++ joinD ", " r.2 ++ o ")")
   | .variable name => let st := push .other st; (pop st, ind st.ident ++ [(Tag.name, name)])
   | .binop kind l r op =>
     -- visit_equality_expr (not on the stack itself) wraps visit_binary_op
@@ -485,71 +499,73 @@ def visit (st : St) : Node → St × Doc
     let st := if kind == "equality" then { st with cast := true } else st
     let st := push .other st
     let old := st.ident
-    let (st1, ra) := visit { st with ident := 0 } l
-    let (st2, rb) := visit st1 r
-    let st3 := pop { st2 with ident := old }
+    let ra := visit { st with ident := 0 } l
+    let rb := visit ra.1 r
+    let st3 := pop { rb.1 with ident := old }
     let st4 := if kind == "equality" then { st3 with cast := prev } else st3
-    (st4, ind old ++ o "(" ++ ra ++ o " " ++ [(Tag.op, op)] ++ o " " ++ rb ++ o ")")
+    (st4, ind old ++ o "(" ++ ra.2 ++ o " " ++ [(Tag.op, op)] ++ o " " ++ rb.2 ++ o ")")
   | .cond cnd tb fb _ =>
     let st := push .other st
     let old := st.ident
-    let (st1, rc) := visit { st with ident := st.ident + 2 } cnd
-    let (st2, rt) := visit st1 tb
-    let (st3, rf) := visit st2 fb
-    let res := ind old ++ o "(if (" ++ dropChars st3.ident rc ++ o ")\n" ++ rt ++ o "\n" ++ ind old ++ o "else\n" ++ rf ++ o ")"
+    let rc := visit { st with ident := st.ident + 2 } cnd
+    let rt := visit rc.1 tb
+    let rf := visit rt.1 fb
+    let st3 := rf.1
+    let res := ind old ++ o "(if (" ++ dropChars st3.ident rc.2 ++ o ")\n" ++ rt.2 ++ o "\n" ++ ind old ++
+      o "else\n" ++ rf.2 ++ o ")"
     (pop { st3 with ident := old }, res)
   | .isE e t isNot =>
     let st := push .other st
     let old := st.ident
-    let (st1, r) := visit { st with ident := 0 } e
-    (pop { st1 with ident := old },
-      ind old ++ r ++ o " " ++ [(Tag.op, if isNot then "!is" else "is")] ++ o " " ++ [(Tag.ty, attrName t)])
+    let r := visit { st with ident := 0 } e
+    (pop { r.1 with ident := old },
+      ind old ++ r.2 ++ o " " ++ [(Tag.op, if isNot then "!is" else "is")] ++ o " " ++ [(Tag.ty, attrName t)])
   | .newE t args canInfer =>
     let st := push .other st
     let old := st.ident
-    let (st1, rs) := visitL { st with ident := 0 } args
-    let st2 := { st1 with ident := old }
+    let r := visitL { st with ident := 0 } args
+    let st2 := { r.1 with ident := old }
     (pop st2, ind st2.ident ++ [(Tag.newT (!canInfer), if canInfer then attrName t else typeName t)] ++
-      o "(" ++ joinD ", " rs ++ o ")")
+      o "(" ++ joinD ", " r.2 ++ o ")")
   | .fieldAccess e field =>
     let st := push .other st
     let old := st.ident
-    let (st1, r) := visit { st with ident := 0 } e
-    let st2 := { st1 with ident := old }
-    (pop st2, ind st2.ident ++ recvDoc e r ++ o "." ++ [(Tag.name, field)])
+    let r := visit { st with ident := 0 } e
+    let st2 := { r.1 with ident := old }
+    (pop st2, ind st2.ident ++ recvDoc e r.2 ++ o "." ++ [(Tag.name, field)])
   | .call func args receiver targs canInfer _ =>
     let st := push .other st
     let old := st.ident
-    let (st1, rr) := visitO { st with ident := 0 } receiver
-    let (st2, rs) := visitL st1 args
-    let st3 := { st2 with ident := old }
+    let rr := visitO { st with ident := 0 } receiver
+    let ra := visitL rr.1 args
+    let st3 := { ra.1 with ident := old }
     let ta : Doc := if !canInfer && !targs.isEmpty then
         [(Tag.targs func, "<" ++ ",".intercalate (targs.map typeName) ++ ">")] else []
-    (match receiver, rr with
-     | some rcv, r :: _ =>
-        (pop st3, ind st3.ident ++ recvDoc rcv r ++ o "." ++ [(Tag.name, func)] ++ ta ++ o "(" ++ joinD ", " rs ++ o ")")
-     | _, _ => (pop st3, ind st3.ident ++ [(Tag.name, func)] ++ ta ++ o "(" ++ joinD ", " rs ++ o ")"))
+    (pop st3, match receiver, rr.2 with
+     | some rcv, d :: _ =>
+        ind st3.ident ++ recvDoc rcv d ++ o "." ++ [(Tag.name, func)] ++ ta ++ o "(" ++ joinD ", " ra.2 ++ o ")"
+     | _, _ => ind st3.ident ++ [(Tag.name, func)] ++ ta ++ o "(" ++ joinD ", " ra.2 ++ o ")")
   | .assign name expr receiver =>
     let st := push .other st
     let old := st.ident
     let prev := st.cast
     let st0 := { st with cast := true, ident := 0 }
-    let (st1, rr) := visitO st0 receiver
-    let (st2, re) := visit st1 expr
-    let res := match receiver, rr with
-      | some rcv, r :: _ => ind old ++ recvDoc rcv r ++ o "." ++ [(Tag.name, name)] ++ o " = " ++ re
-      | _, _ => ind old ++ [(Tag.name, name)] ++ o " = " ++ re
-    (pop { st2 with ident := old, cast := prev }, res)
+    let rr := visitO st0 receiver
+    let re := visit rr.1 expr
+    let res := match receiver, rr.2 with
+      | some rcv, d :: _ => ind old ++ recvDoc rcv d ++ o "." ++ [(Tag.name, name)] ++ o " = " ++ re.2
+      | _, _ => ind old ++ [(Tag.name, name)] ++ o " = " ++ re.2
+    (pop { re.1 with ident := old, cast := prev }, res)
 /-- `for c in children: c.accept(self)` then `pop_children_res(children)` -/
 def visitL (st : St) : List Node → St × List Doc
   | [] => (st, [])
   | x :: xs =>
-    let (s1, d) := visit st x
-    let (s2, ds) := visitL s1 xs
-    (s2, d :: ds)
+    let r1 := visit st x
+    let r2 := visitL r1.1 xs
+    (r2.1, r1.2 :: r2.2)
 def visitO (st : St) : Option Node → St × List Doc
   | none => (st, [])
-  | some x => let (s1, d) := visit st x; (s1, [d])
+  | some x => let r := visit st x; (r.1, [r.2])
 def visitOL (st : St) : Option (List Node) → St × List Doc
   | none => (st, [])
   | some xs => visitL st xs
@@ -558,7 +574,7 @@ end
 /-! ## `visit_program` and the translator object -/
 
 /-- `KotlinTranslator(package)` right after construction -/
-def initSt (package : Option String) : St := { package := package }
+def initObj (package : Option String) : Obj := { package := package }
 
 def programClasses (p : Program) : List Node := p.decls.filter isClassDecl
 
@@ -567,28 +583,28 @@ def packageLine (package : Option String) : String :=
   | some s => if s != "" then "package " ++ s ++ "\n" else ""
   | none => ""
 
-/-- the doc of `visit_program` (the package line is one layout piece) -/
-def programDoc (st : St) (p : Program) : St × Doc :=
-  let st := { st with context := programClasses p }
-  let (st1, rs) := visitL st p.decls
-  (st1, o (packageLine st1.package) ++ joinD "\n\n" rs)
+/-- the state and doc of `visit_program` (the package line is one layout piece):
+    `self.context = node.context`, then the children -/
+def programDoc (ob : Obj) (p : Program) : St × Doc :=
+  let r := visitL { ob.st with context := programClasses p } p.decls
+  (r.1, o (packageLine ob.package) ++ joinD "\n\n" r.2)
 
 /-- `visit_program`: `self.context = …`, children, `self.program = …` -/
-def visitProgram (st : St) (p : Program) : St :=
-  let (st1, d) := programDoc st p
-  { st1 with program := some (flatten d) }
+def visitProgram (ob : Obj) (p : Program) : Obj :=
+  let r := programDoc ob p
+  { ob with st := r.1, program := some (flatten r.2) }
 
-/-- `utils.translate_program(translator, p)` on a translator in state `st` -/
-def translate (st : St) (p : Program) : St × String :=
-  let st1 := visitProgram st p
-  (st1, st1.program.getD "")
+/-- `utils.translate_program(translator, p)`: `translator.visit(p); translator.result()` -/
+def translate (ob : Obj) (p : Program) : Obj × String :=
+  let ob1 := visitProgram ob p
+  (ob1, ob1.program.getD "")
 
 /-- the translator after translating the programs `ps` in turn -/
-def after (st : St) (ps : List Program) : St := ps.foldl visitProgram st
+def after (ob : Obj) (ps : List Program) : Obj := ps.foldl visitProgram ob
 
-def text (st : St) (p : Program) : String := (translate st p).2
+def text (ob : Obj) (p : Program) : String := (translate ob p).2
 
-def kotlinDoc (package : Option String) (p : Program) : Doc := (programDoc (initSt package) p).2
+def kotlinDoc (package : Option String) (p : Program) : Doc := (programDoc (initObj package) p).2
 
 /-! ## The declaration inventory, computed from the IR alone (document order) -/
 
